@@ -310,7 +310,7 @@ class ArchLinuxVersion(Version):
         value = self.value
         epoch, version = value.split(":", 1) if ":" in value else ("0", value)
         version = version.rsplit("-", 1)[0]
-        return hash(tuple(tuple(int(d) for d in re.findall(r"[0-9]+", s)) for s in (epoch, version)))
+        return hash(tuple(tuple(int(d) for d in re.findall(r"\d+", s)) for s in (epoch, version)))
 
 
 class DebianVersion(Version):
